@@ -456,7 +456,9 @@ def h_nm(s, dim, iters, minimize, adaptive=False, stop=0, knobs=None):
 
 # ------------------------------------------------------------------------------------------ second group: powell / bfgs / lbfgs / bayesian_opt
 def _fkey(p):
-    return tuple(str(x).replace("-", "m").replace(".", "p").replace("e", "E").replace("+", "") for x in _pkey(p))
+    # exact: a backtracking line search halves its step down to 2^-50, points 1e-15 apart are different points (positions are concrete floats
+    # in the symbolic and in the native run alike, so no rounding is needed to match them up)
+    return tuple(repr(float(x)).replace("-", "m").replace(".", "p").replace("e", "E").replace("+", "") for x in p)
 
 
 def h_powell(s, dim, minimize, bounded, iters=1, stop=0):
